@@ -635,6 +635,16 @@ async def run_all(cases):
     for c in cases:
         r = {"emitted": [], "raised": None}
         objs = []
+        dbg = bool(c.get("debug_logging"))
+        if dbg:
+            # the application runs with DEBUG logging switched on (python -m chuk_mcp --verbose; a root logger at DEBUG):
+            # what is LOGGED is not the property's business, what is EMITTED is
+            logging.disable(logging.NOTSET)
+            _root = logging.getLogger()
+            _lvl = _root.level
+            _root.setLevel(logging.DEBUG)
+            if not any(isinstance(h, logging.NullHandler) for h in _root.handlers):
+                _root.addHandler(logging.NullHandler())
         try:
             objs = await EMITTERS[c["em"]](c)
         except _Raised as e:
@@ -644,6 +654,10 @@ async def run_all(cases):
                 raise
             r["raised"] = type(e).__name__
             r["raised_msg"] = str(e)[:160]
+        finally:
+            if dbg:
+                _root.setLevel(_lvl)
+                logging.disable(logging.CRITICAL)
         r["_objs"] = objs
         if c["em"] == "parse":
             r["parse"] = parse_view(copy.deepcopy(c["wire"]))
